@@ -61,6 +61,11 @@ def _corpus():
     add("small-field-over", b"GET / HTTP/1.1\r\nA: " + b"b" * 20 + b"\r\n\r\n" + nxt, cfgs=("small",))
     add("small-3fields", b"GET / HTTP/1.1\r\nA: 1\r\nB: 2\r\nC: 3\r\n\r\n" + nxt, cfgs=("small",))
     add("small-4fields", b"GET / HTTP/1.1\r\nA: 1\r\nB: 2\r\nC: 3\r\nD: 4\r\n\r\n" + nxt, cfgs=("small",))
+    add("small-line-over-unterminated", b"GET /" + b"a" * 60, cfgs=("small",))
+    add("small-line-over-unterminated-2nd", b"GET / HTTP/1.1\r\n\r\nGET /" + b"a" * 60, cfgs=("small",))
+    add("small-field-over-unterminated", b"GET / HTTP/1.1\r\nA: " + b"b" * 200, cfgs=("small",))
+    add("small-block-over+bad-line", b"GET / HTTP/1.1\r\nbad line\r\nA: 1\r\nB: " + b"2" * 18 + b"\r\nC: " + b"3" * 18 + b"\r\nD: " + b"4" * 18 + b"\r\n\r\n" + nxt, cfgs=("small",))
+    add("small-block-over+bad-name", b"GET / HTTP/1.1\r\nA b: 1\r\nB: " + b"2" * 18 + b"\r\nC: " + b"3" * 18 + b"\r\nD: " + b"4" * 18 + b"\r\nE: 5\r\n\r\n" + nxt, cfgs=("small",))
     add("small-body-after-head", b"POST / HTTP/1.1\r\nContent-Length: 90\r\n\r\n" + b"x" * 90 + nxt, cfgs=("small",))
     # PROXY protocol line
     add("proxy-v1", b"PROXY TCP4 10.0.0.1 10.0.0.2 1111 80\r\nGET /p HTTP/1.1\r\nA: b\r\n\r\n" + nxt, proxy=True)
@@ -90,6 +95,8 @@ def _long_corpus():
     L.append(("long-field-8191", b"GET / HTTP/1.1\r\nA: " + b"v" * 8186 + b"\r\nB: c\r\n\r\n" + nxt))
     L.append(("long-line-8190", b"GET /" + b"a" * 8176 + b" HTTP/1.1\r\nB: c\r\n\r\n" + nxt))
     L.append(("long-line-8191", b"GET /" + b"a" * 8177 + b" HTTP/1.1\r\nB: c\r\n\r\n" + nxt))
+    L.append(("long-line-unterminated", b"GET /" + b"a" * 9000))
+    L.append(("long-line-unterminated-short-of-a-read", b"GET /" + b"a" * 5000))
     L.append(("long-cl-body", b"POST /b HTTP/1.1\r\nContent-Length: 9000\r\n\r\n" + (b"0123456789\r\n" * 750) + nxt))
     L.append(("long-chunks", b"POST /b HTTP/1.1\r\nTransfer-Encoding: chunked\r\n\r\n"
               + b"2000\r\n" + b"x" * 8192 + b"\r\n" + b"401\r\n" + b"y" * 1025 + b"\r\n0\r\nT: 1\r\n\r\n" + nxt))
@@ -100,7 +107,9 @@ def _obs(chunks, cfg):
     reqs, kind, exc, text = gparse.parse_stream(chunks, cfg)
     over = tuple(gparse.parse_stream.last_overreads)
     _obs.last_over = over
-    return (tuple(r[:8] for r in reqs), kind), (exc, text)
+    # how the sequence ended: clean end / truncated / rejected - and, for a rejection, as what (the client is told 400, 414,
+    # 431 ... accordingly): that must not depend on the segmentation either
+    return (tuple(r[:8] for r in reqs), kind if kind != "reject" else "reject:" + exc), (exc, text)
 
 
 def _touches_delim(data, cuts):
@@ -142,7 +151,7 @@ def _check_one(data, cfgname, cuts):
                          {"data": data.decode("latin-1"), "cfg": cfgname, "cuts": list(cuts)})
     if d is None:
         return None
-    fp = "segdep:%s:%s" % (d, exc if got[1] == "reject" else got[1])
+    fp = "segdep:%s:%s" % (d, exc if got[1].startswith("reject") else got[1])
     if exc == "LimitRequestHeaders":
         fp += ":" + text.replace(" ", "-")
     return violation(fp, "stream %r cfg=%s cuts=%s: %s differs from the unsegmented parse (whole=%s/%d reqs, cut=%s/%d reqs, %s %s)" % (
@@ -193,6 +202,66 @@ def _task(t):
             "ref": (ref[1], len(ref[0])), "viols": viols}
 
 
+class _PathApp:
+    def __init__(self):
+        self.calls = []
+
+    def __call__(self, environ, start_response):
+        body = environ["wsgi.input"].read()
+        self.calls.append((environ["PATH_INFO"], body))
+        start_response("200 OK", [("Content-Length", "2")])
+        return [b"ok"]
+
+
+def _worker_task(t):
+    """The same promise one level up: the requests a keep-alive worker hands to the application do not depend on how the
+    connection's bytes were split over sends (every single cut, delivered while the handler waits for more)."""
+    from vlib import bench
+    kind, kw, sname, data, want = t
+    viols = []
+    n = 0
+    for cut in [None] + list(range(1, len(data))):
+        app = _PathApp()
+        b = bench.Bench(kind, kw, app)
+        try:
+            if cut is None:
+                o = b.connection(data)
+                exc = o.exc
+            else:
+                il = bench.Interleaver(b)
+                il.open("A", ("10.0.0.1", 5))
+                il.send("A", data[:cut])
+                il.send("A", data[cut:])
+                c = il.close("A")
+                exc = c["exc"]
+        finally:
+            b.close()
+        n += 1
+        if exc or app.calls != want:
+            viols.append(violation("segdep:worker-level:%s" % kind, "worker=%s %r stream %s sent %s: application calls %r, expected %r%s" % (
+                kind, kw, sname, "whole" if cut is None else "in two pieces cut at %d" % cut, app.calls, want, (" (handle() raised %s)" % exc) if exc else ""),
+                {"worker_level": [kind, sname]}))
+            break
+    return {"name": "worker:" + sname, "cfg": kind, "evals": n, "nontriv": n, "ref": ("stop", len(want)), "viols": viols}
+
+
+def _worker_tasks():
+    T = []
+    streams = {
+        "three-pipelined": (b"GET /1 HTTP/1.1\r\n\r\nGET /2 HTTP/1.1\r\nA: b\r\n\r\nGET /3 HTTP/1.1\r\nConnection: close\r\n\r\n", [("/1", b""), ("/2", b""), ("/3", b"")]),
+        "post+get": (b"POST /1 HTTP/1.1\r\nContent-Length: 5\r\n\r\nhelloGET /2 HTTP/1.1\r\nConnection: close\r\n\r\n", [("/1", b"hello"), ("/2", b"")]),
+        "chunked+get": (b"POST /1 HTTP/1.1\r\nTransfer-Encoding: chunked\r\n\r\n3\r\nabc\r\n0\r\nT: 1\r\n\r\nGET /2 HTTP/1.1\r\nConnection: close\r\n\r\n", [("/1", b"abc"), ("/2", b"")]),
+    }
+    for kind, kw in (("async", {"keepalive": 2}), ("gthread", {"keepalive": 2, "threads": 1, "worker_connections": 4})):
+        for sname, (data, want) in streams.items():
+            T.append((kind, kw, sname, data, want))
+    return T
+
+
+def _dispatch(t):
+    return _worker_task(t[1]) if t[0] == "~worker" else _task(t)
+
+
 def run(ctx):
     k = 4 if ctx.thorough else 3
     tasks = []
@@ -207,10 +276,13 @@ def run(ctx):
             tasks.append((s["name"], s["data"], c, 0, "special"))
     for name, data in _long_corpus():
         tasks.append((name, data, "default", 2 if ctx.thorough else 1, "long"))
+    ntask_parser = len(tasks)
+    tasks += [("~worker", t) for t in _worker_tasks()]
     rnd = random.Random(ctx.seed)
     order = list(range(len(tasks)))
     rnd.shuffle(order)                      # seed only permutes the visiting order
-    res = par.pmap(_task, [tasks[i] for i in order])
+    res = par.pmap(_dispatch, [tasks[i] for i in order])
+    tasks = tasks[:ntask_parser]
     res.sort(key=lambda r: (r["name"], r["cfg"]))
     viols = [v for r in res for v in r["viols"]]
     evals = sum(r["evals"] for r in res)
@@ -235,8 +307,14 @@ def run(ctx):
     return Result("exploration", cov, viols,
                   ["the parse of the stream in maximal reads (one read, or 8192-byte reads for longer streams) is the reference observation",
                    "streams longer than 8192 bytes are cut at least every 8192 bytes",
-                   "rejection class (which exception) is not compared, only reject / truncated / clean end and its position"])
+                   "a rejection is compared by position and by kind of error (it decides the status the client is told)"])
 
 
 def replay(case):
+    if "worker_level" in case:
+        for t in _worker_tasks():
+            if [t[0], t[2]] == list(case["worker_level"]):
+                r = _worker_task(t)
+                return r["viols"][0] if r["viols"] else None
+        return None
     return _check_one(case["data"].encode("latin-1"), case["cfg"], tuple(case["cuts"]))
